@@ -21,3 +21,5 @@ import DateutilVerif.Properties.TzGen   -- translator tie (wt-iso): obligations 
 #print axioms C05.gen_eq_model_range_isdst
 #print axioms C05.gen_eq_model_naive_isdst
 #print axioms C05.ambiguous_iff_gen
+#print axioms C05.gen_eq_model_tzinfo_is_ambiguous
+#print axioms C05.gen_eq_model_tzinfo_fold_status
